@@ -7,7 +7,7 @@ From V.C07 Require Import Model Spec Corr.
 Local Open Scope Z_scope.
 
 Definition vzat (v : Z) : bool := (0 <=? v) && (v <=? C07Consts.MAX_MONEY).
-Definition small (v : Z) : bool := (0 <=? v) && (v <=? 4294967296).
+Definition small (v : Z) : bool := (0 <=? v) && (v <=? 2147483648).
 Definition in_usize (v : Z) : bool := (0 <=? v) && (v <=? usize_max).
 Definition tsize_ok (s : tsize) : bool := match s with Known n => small n | Unknown id => 0 <=? id end.
 
